@@ -58,7 +58,7 @@ func repoFrames(skipHarness bool, pcs []uintptr) []string {
 		if strings.HasPrefix(f.Function, "github.com/nspcc-dev/neo-go/") && !(skipHarness && strings.Contains(f.Function, "/verifharness/")) {
 			out = append(out, shortFn(f.Function))
 		}
-		if !more || len(out) >= 4 {
+		if !more || len(out) >= 16 {
 			break
 		}
 	}
@@ -83,16 +83,30 @@ func panicMsg(x any) string {
 	return s
 }
 
-// panicSig must be called from a deferred function while panicking.
+var reDecoderFn = regexp.MustCompile(`(?i)decode|unmarshal|fromjson|frombytes|deserialize|fromstackitem|fromreader|readarray`)
+
+// panicSig must be called from a deferred function while panicking. The
+// signature names the innermost decoding function on the stack and what it
+// called (or, if it panicked itself, the normalised message), so that one
+// unchecked call is one signature whatever value made it panic.
 func panicSig(x any) (sig, frames string) {
-	pcs := make([]uintptr, 64)
+	pcs := make([]uintptr, 96)
 	n := runtime.Callers(2, pcs)
 	fr := repoFrames(true, pcs[:n])
+	frames = strings.Join(fr[:min(len(fr), 6)], " <- ")
+	for i, f := range fr {
+		if reDecoderFn.MatchString(f) {
+			if i == 0 {
+				return "decode-panic:" + f + ":" + panicMsg(x), frames
+			}
+			return "decode-panic:" + f + "->" + fr[i-1], frames
+		}
+	}
 	top := "unknown"
 	if len(fr) > 0 {
 		top = fr[0]
 	}
-	return "decode-panic:" + top + ":" + panicMsg(x), strings.Join(fr, " <- ")
+	return "decode-panic:" + top + ":" + panicMsg(x), frames
 }
 
 // ---- mutations ------------------------------------------------------------------
@@ -417,7 +431,17 @@ func allocSite(f func()) (site, stack string) {
 	if len(fr) == 0 {
 		return "", ""
 	}
-	return fr[0], strings.Join(fr, " <- ")
+	site = fr[0]
+	if strings.HasPrefix(site, "io.(*BinWriter)") || site == "io.(*BinReader).ReadBytes" {
+		// a generic primitive: say on whose behalf it allocated
+		for _, f := range fr[1:] {
+			if !strings.HasPrefix(f, "io.") {
+				site += "<-" + f
+				break
+			}
+		}
+	}
+	return site, strings.Join(fr[:min(len(fr), 6)], " <- ")
 }
 
 // runCase executes one fuzz case: decode under the panic / allocation / CPU
@@ -495,7 +519,7 @@ func (ch *child) runCase(id string, c *codec, kind string, input, seed []byte) (
 				defer func() { _ = recover() }()
 				re, _ = c.enc(v)
 			}()
-			sameAsSeed = bytes.Equal(re, seed)
+			sameAsSeed = bytes.Equal(c.normalise(re), c.normalise(seed))
 			if bytes.Equal(re, input) {
 				outcome = "accepted:canonical"
 			} else {
